@@ -92,6 +92,23 @@ class Closure:
 _NOT_EVALUATED = object()
 
 
+class DefClosure:
+    """A nested `def` together with the (live) environment of the enclosing call."""
+
+    def __init__(self, node, env, func):
+        self.node, self.env, self.func = node, env, func
+
+    def __repr__(self):
+        return "<nested function %s>" % self.node.name
+
+
+class ContainerMethod:
+    """getattr(<abstract list/dict>, '<name>')"""
+
+    def __init__(self, base, name):
+        self.base, self.name = base, name
+
+
 class PyFunc:
     """A library function modelled by a Python function of the check (held in a variable by the code)."""
 
@@ -356,6 +373,8 @@ class Interp:
                 self.exec_block(st.finalbody, env, f)
                 raise
             self.exec_block(st.finalbody, env, f)
+        elif isinstance(st, (ast.FunctionDef,)) and not st.decorator_list and not st.args.vararg and not st.args.kwarg:
+            env[st.name] = DefClosure(st, env, f)
         elif isinstance(st, ast.Delete):
             for t in st.targets:
                 if isinstance(t, ast.Name):
@@ -380,6 +399,10 @@ class Interp:
             v = self.eval(st.value, env, f)
             if isinstance(st.op, ast.Add) and isinstance(cur, list) and isinstance(v, list):
                 cur.extend(v)
+            elif isinstance(st.op, ast.BitOr) and isinstance(cur, set) and isinstance(v, set):
+                cur |= v             # in place, like the real set
+            elif all(isinstance(x, int) and not isinstance(x, bool) for x in (cur, v)) and isinstance(st.op, (ast.Add, ast.Sub, ast.Mult)):
+                self.assign(st.target, cur + v if isinstance(st.op, ast.Add) else cur - v if isinstance(st.op, ast.Sub) else cur * v, env, f)
             else:
                 self.assign(st.target, TOP, env, f)
         else:
@@ -399,6 +422,15 @@ class Interp:
                 raise Unsupported("unpacking %r into %s" % (v, norm(target)))
             for e, x in zip(target.elts, v):
                 self.assign(e, x, env, f)
+        elif isinstance(target, ast.Subscript) and isinstance(target.slice, ast.Slice):
+            base = self.eval(target.value, env, f)
+            lo = None if target.slice.lower is None else self.eval(target.slice.lower, env, f)
+            hi = None if target.slice.upper is None else self.eval(target.slice.upper, env, f)
+            if isinstance(base, list) and isinstance(v, (list, tuple)) and target.slice.step is None \
+                    and all(x is None or (isinstance(x, int) and not isinstance(x, bool)) for x in (lo, hi)):
+                base[lo:hi] = list(v)
+            else:
+                raise Unsupported("slice assignment on %r" % (base,))
         elif isinstance(target, ast.Subscript):
             base = self.eval(target.value, env, f)
             key = self.eval(target.slice, env, f)
@@ -517,10 +549,13 @@ class Interp:
                     return isinstance(op, ast.NotIn)
                 if any(x is a for x in b):
                     return isinstance(op, ast.In)
-                if isinstance(a, Obj) and all(isinstance(x, Obj) for x in b) and ("__eqclass__" in a.attrs or any("__eqclass__" in x.attrs for x in b)):
+                if isinstance(a, Obj) and all(isinstance(x, Obj) for x in b):
+                    # abstract objects are distinct unless they share a value-equality class
                     ec = a.attrs.get("__eqclass__")
                     r = ec is not None and any(x.attrs.get("__eqclass__") == ec for x in b)
                     return r if isinstance(op, ast.In) else (not r)
+                if (a is None or isinstance(a, (str, int))) and all(isinstance(x, Obj) for x in b):
+                    return isinstance(op, ast.NotIn)
             return TOP
         raise Unsupported("comparison %s" % type(op).__name__)
 
@@ -743,6 +778,17 @@ class Interp:
             r = self.call_hook(norm(fn), args, kwargs)
             if r is not NotImplemented:
                 return r
+        if isinstance(fn, (ast.Call, ast.Subscript, ast.IfExp)):
+            callee = self.eval(fn, env, f)
+            if isinstance(callee, ContainerMethod):
+                return self.call_container_method(callee, args, kwargs)
+            if isinstance(callee, DefClosure):
+                return self.call_def_closure(callee, args, kwargs)
+            if isinstance(callee, PyFunc):
+                return callee.fn(*args, **kwargs)
+            if isinstance(callee, BoundMethod):
+                return self.invoke(callee.func, args, kwargs, callee.obj)
+            return TOP
         if isinstance(fn, ast.Name):
             n = fn.id
             bound = env.get(n)
@@ -751,6 +797,10 @@ class Interp:
                 for a_, v_ in zip(bound.node.args.args, args):
                     sub[a_.arg] = v_
                 return self.eval(bound.node.body, sub, bound.func)
+            if isinstance(bound, DefClosure):
+                return self.call_def_closure(bound, args, kwargs)
+            if isinstance(bound, ContainerMethod):
+                return self.call_container_method(bound, args, kwargs)
             if isinstance(bound, PyFunc):
                 return bound.fn(*args, **kwargs)
             if isinstance(bound, BoundMethod):
@@ -842,6 +892,21 @@ class Interp:
                 return d
             if n == "defaultdict" and len(c.args) == 1 and isinstance(c.args[0], ast.Name) and c.args[0].id in ("list", "dict", "set"):
                 return _collections.defaultdict({"list": list, "dict": dict, "set": set}[c.args[0].id])
+            if n == "getattr" and len(args) in (2, 3) and isinstance(args[1], str):
+                tgt = args[0]
+                if isinstance(tgt, (list, dict, set)):
+                    return ContainerMethod(tgt, args[1])
+                if isinstance(tgt, Obj):
+                    if args[1] in tgt.attrs:
+                        return tgt.attrs[args[1]]
+                    if "__cls__" in tgt.attrs:
+                        g = self.hier.resolve(tgt.attrs["__cls__"], args[1])
+                        if g is not None:
+                            return self.invoke(g, [], {}, tgt) if g.has_decorator("property") else BoundMethod(tgt, g)
+                    if len(args) == 3:
+                        return args[2]
+                    return TOP
+                return TOP
             if n == "reversed" and len(args) == 1 and isinstance(args[0], (list, tuple)):
                 return list(reversed(args[0]))
             if n == "zip":
@@ -933,6 +998,34 @@ class Interp:
                 raise Unsupported("method %s() of an abstract %s, whose effect the interpreter does not model" % (m, type(base).__name__))
             return TOP
         return TOP
+
+    def call_def_closure(self, c, args, kwargs):
+        sub = dict(c.env)                      # late binding: the enclosing variables as they are now
+        names = [a.arg for a in c.node.args.args]
+        if len(args) > len(names):
+            raise Unsupported("call of nested function %s with too many arguments" % c.node.name)
+        for nme, v in zip(names, args):
+            sub[nme] = v
+        sub.update(kwargs)
+        defaults = c.node.args.defaults
+        for a_, d in zip(names[len(names) - len(defaults):], defaults):
+            if a_ not in sub or (a_ in c.env and a_ not in kwargs and names.index(a_) >= len(args)):
+                sub[a_] = self.eval(d, dict(c.env), c.func)
+        try:
+            self.exec_block(c.node.body, sub, c.func)
+        except _Return as r:
+            return r.value
+        return None
+
+    def call_container_method(self, cm, args, kwargs):
+        if isinstance(cm.base, list):
+            if cm.name == "append" and len(args) == 1:
+                cm.base.append(args[0])
+                return None
+            return self.list_method(cm.base, cm.name, list(args))
+        if isinstance(cm.base, dict):
+            return self.dict_method(cm.base, cm.name, list(args), kwargs)
+        raise Unsupported("method %s of %r through getattr" % (cm.name, cm.base))
 
     # ------------------------------------------------------------ containers of abstract elements
     def same(self, a, b):
